@@ -44,9 +44,9 @@ def plan(tier, seed):
     else:
         flat_ccs = ['gcc-O0', 'gcc-O2', 'gcc-O3', 'clang-O0', 'clang-O2', 'clang-O3', 'gcc-O1-nobuiltin',
                     'clang-O1-nobuiltin', 'gcc-O2-gnu89']
-        nrandom, full = 20000, True
+        nrandom, full = 150000, True
         nslices = 16
-        ncases, nexpr = 60, 32
+        ncases, nexpr = 300, 32
         expr_ccs = ['gcc-O0', 'clang-O2', 'gcc-O2', 'clang-O0', 'gcc-O3', 'clang-O3', 'gcc-O0-gnu89', 'clang-O2-gnu89']
     # flat: slices of the operator list; each slice under every compiler of the tier (quick: nobuiltin only for bit ops)
     slices = [ops[i::nslices] for i in range(nslices)]
